@@ -43,6 +43,9 @@ pub fn profile() -> Profile {
     p.vin_as_storage = 2;
     p.out_as_storage = 1;
     p.keyword_names = 2;
+    p.overrides = 2;
+    p.ov_sized_array = 4;
+    p.struct_helpers = 2;
     p
 }
 
